@@ -14,15 +14,56 @@ LEVEL = "exploration"
 PREAMBLE = '#include "sweep.hh"\n' + c11.PREAMBLE + r'''
 namespace c16 {
 template <typename T> std::string fmt(T v) { return c11::Fmt<T>::get(v); }
+// implicit conversion in argument position (template arguments given explicitly, so the parameter type is concrete)
+template <typename Un, typename R> constexpr R takes(au::Quantity<Un, R> q) { return q.in(Un{}); }
+// value bits of an arithmetic object (x87 long double: 10 value bytes, 6 padding bytes)
+template <typename T> bool same_value_bits(const T &a, const T &b) {
+    return std::memcmp(&a, &b, std::is_same<T, long double>::value ? 10 : sizeof(T)) == 0;
+}
+// |a - b| <= 1 ulp-ish (or both the same infinity / zero); used for reciprocals only
+template <typename T> bool near1(T a, T b) {
+    if (a == b) return true;
+    const T d = a > b ? a - b : b - a, m = b < 0 ? -b : b;
+    return d <= std::numeric_limits<T>::epsilon() * m;
+}
+// which wrapper family a composition result belongs to
+template <typename X> struct Kind { static const char *name() { return "other"; } using Unit = au::AssociatedUnitT<X>; };
+template <typename Un, typename R> struct Kind<au::Quantity<Un, R>> { static const char *name() { return "Quantity"; } using Unit = Un; };
+template <typename Un> struct Kind<au::Constant<Un>> { static const char *name() { return "Constant"; } using Unit = Un; };
+template <typename Un> struct Kind<au::QuantityMaker<Un>> { static const char *name() { return "QuantityMaker"; } using Unit = Un; };
+template <typename Un> struct Kind<au::SingularNameFor<Un>> { static const char *name() { return "SingularNameFor"; } using Unit = Un; };
+template <typename Un> struct Kind<au::SymbolFor<Un>> { static const char *name() { return "SymbolFor"; } using Unit = Un; };
+template <typename X> std::string kind_unit() {
+    return std::string("{\"kind\":\"") + Kind<X>::name() + "\"," + vf::unit_json<typename Kind<X>::Unit>() + "}";
+}
+// operand families the library may or may not offer for Constant (bare unit types, symbols): detect, then read out
+template <typename A, typename B, typename = void> struct Mul { static std::string get() { return "null"; } };
+template <typename A, typename B>
+struct Mul<A, B, vf::void_t<decltype(std::declval<A>() * std::declval<B>())>> {
+    static std::string get() { return kind_unit<std::decay_t<decltype(std::declval<A>() * std::declval<B>())>>(); }
+};
+template <typename A, typename B, typename = void> struct Div { static std::string get() { return "null"; } };
+template <typename A, typename B>
+struct Div<A, B, vf::void_t<decltype(std::declval<A>() / std::declval<B>())>> {
+    static std::string get() { return kind_unit<std::decay_t<decltype(std::declval<A>() / std::declval<B>())>>(); }
+};
 }
 '''
 
 J_DIM = model.d(M=1, L=2, T=-2)
 W_DIM = model.d(M=1, L=2, T=-3)
+FORMS = ("as", "in", "implicit")
+VAL_FORMS = ("as", "in", "direct-init", "copy-init", "argument")
+# constants whose every boundary target is enumerated in the quick tier (the others get a rotating quarter)
+QUICK_FULL = ("SPEED_OF_LIGHT", "REDUCED_PLANCK_CONSTANT", "r5_7mps", "sqrt2m")
+SLOT_CONSTS = ("SPEED_OF_LIGHT", "r5_7mps", "pi_rad")
+
+
+def ten(e):
+    return model.vpow(model.mag_int(10), e)
 
 
 def lib_constants():
-    ten = lambda e: model.vpow(model.mag_int(10), e)
     mi = model.mag_int
     vm = model.vmul
     return [
@@ -57,42 +98,185 @@ def gen_constants():
     add("huge_m", "au::Meters{} * au::pow<39>(au::mag<10>())", m.dim, model.vpow(model.mag_int(10), 39))
     add("ftlb", "au::Feet{} * au::PoundsForce{}", model.vmul(U["feet"].dim, U["pounds_force"].dim), model.vmul(U["feet"].mag, U["pounds_force"].mag))
     add("one", "au::UnitProductT<>{}", {}, {})
+    # rational-power magnitudes and dimensions
+    add("two32m", "au::Meters{} * au::root<2>(au::mag<8>())", m.dim, {2: Fr(3, 2)})
+    add("rt_m3", "au::root<2>(au::pow<3>(au::Meters{}) * au::mag<8>())", model.vpow(m.dim, Fr(3, 2)), {2: Fr(3, 2)})
     return out
 
 
-def targets_for(dim, cmag, tier):
-    """Same-dimension target units as (expr, mag)."""
-    out = []
-    base_expr = None
-    dk = model.dim_key(dim)
-    # a base unit expression of this dimension built from SI atoms with magnitude 1 (grams for mass)
-    names = {model.L: "au::Meters", model.M: "au::Grams", model.T: "au::Seconds", model.I: "au::Amperes", model.TH: "au::Kelvins",
-             model.ANG: "au::Radians", model.INFO: "au::Bits", model.N: "au::Moles", model.J: "au::Candelas"}
+ATOMS = {model.L: "au::Meters", model.M: "au::Grams", model.T: "au::Seconds", model.I: "au::Amperes", model.TH: "au::Kelvins",
+         model.ANG: "au::Radians", model.INFO: "au::Bits", model.N: "au::Moles", model.J: "au::Candelas"}
+
+
+def base_unit_expr(dim):
+    """a unit expression of this dimension built from SI atoms with magnitude 1 (grams for mass)"""
     parts = []
     for b, e in sorted(dim.items()):
-        parts.append("au::pow<%d>(%s{})" % (e.numerator, names[b]))
-    base_expr = " * ".join(parts) if parts else "au::UnitProductT<>{}"
-    scales = [{}, model.mag_int(1000), model.mag_ratio(1, 1000), model.vpow(model.mag_int(10), 9), model.vpow(model.mag_int(10), -9),
-              model.mag_int(3), model.mag_ratio(1, 7), dict(model.MAG_PI), cmag, model.vmul(cmag, model.mag_ratio(1, 127)),
-              model.vmul(cmag, model.mag_ratio(1, 128)), model.vmul(cmag, model.mag_ratio(1, 32767)), model.vmul(cmag, model.mag_ratio(1, 32768)),
-              model.vmul(cmag, model.mag_ratio(1, 2 ** 31)), model.vmul(cmag, model.mag_ratio(1, 2 ** 32)),
-              model.vmul(cmag, model.vpow(model.mag_int(10), -38)), model.vmul(cmag, model.vpow(model.mag_int(10), -39)),
-              model.vmul(cmag, model.vpow(model.mag_int(10), 44)), model.vmul(cmag, model.vpow(model.mag_int(10), 46)),
-              model.vmul(cmag, model.mag_int(2))]
+        p = "au::pow<%d>(%s{})" % (e.numerator, ATOMS[b])
+        parts.append(p if e.denominator == 1 else "au::root<%d>(%s)" % (e.denominator, p))
+    return " * ".join(parts) if parts else "au::UnitProductT<>{}"
+
+
+def boundary_ratios():
+    """exact ratios C/u straddling every type's maximum (and, for floating types, minimum normal / half the smallest denormal)"""
+    mi = model.mag_int
+    out = []
+    for k in (7, 8, 15, 16, 31, 32, 63, 64):
+        out += [mi(2 ** k - 1), mi(2 ** k)]
+    for e in (38, 39, -37, -38, -44, -46, 308, 309, -307, -308, -310, -324, 4932, 4933, -4931, -4932, -4940, -4951):
+        out.append(ten(e))
+    return out
+
+
+NAMED_TARGETS = {   # library units (named, prefixed, compound) as targets: (expression, model magnitude)
+    "SPEED_OF_LIGHT": [("decltype(au::Kilo<au::Meters>{} / au::Hours{})", model.mag_ratio(1000, 3600)),
+                       ("decltype(au::Miles{} / au::Hours{})", model.vdiv(U["miles"].mag, U["hours"].mag)),
+                       ("decltype(au::Knots{})", U["knots"].mag)],
+    "PLANCK_CONSTANT": [("decltype(au::Joules{} * au::Seconds{})", U["joules"].mag),
+                        ("decltype(au::Milli<au::Joules>{} * au::Nano<au::Seconds>{})", model.vmul(U["joules"].mag, ten(-12)))],
+    "STANDARD_GRAVITY": [("decltype(au::Feet{} / au::squared(au::Seconds{}))", U["feet"].mag),
+                         ("decltype(au::StandardGravity{})", U["standard_gravity"].mag)],
+    "k1000m": [("au::Kilo<au::Meters>", model.mag_int(1000)), ("au::Feet", U["feet"].mag), ("au::Inches", U["inches"].mag)],
+    "ftlb": [("decltype(au::Joules{})", U["joules"].mag), ("decltype(au::Newtons{} * au::Meters{})", U["newtons"].mag)],
+}
+
+
+def targets_for(name, idx, dim, cmag, tier):
+    """Same-dimension target units as (expr, mag)."""
+    base_expr = base_unit_expr(dim)
+    general = [{}, model.mag_int(1000), model.mag_ratio(1, 1000), ten(9), ten(-9), model.mag_int(3), model.mag_ratio(1, 7), dict(model.MAG_PI),
+               cmag, model.vmul(cmag, model.mag_int(2))]
     if tier == "quick":
-        scales = scales[:3] + scales[5:6] + scales[7:12] + scales[13:14] + scales[15:19]
-    seen = set()
+        general = general[:3] + general[5:6] + general[7:9]
+    bnd = boundary_ratios()
+    if tier == "quick" and name not in QUICK_FULL:
+        bnd = [r for j, r in enumerate(bnd) if j % 4 == idx % 4]
+    scales = general + [model.vdiv(cmag, r) for r in bnd]
+    out, seen = [], set()
     for sc in scales:
         k = model.mag_key(sc)
         if k in seen:
             continue
         seen.add(k)
         out.append(("decltype(%s * (%s))" % (base_expr, mag_expr(sc)) if sc else "decltype(%s)" % base_expr, sc))
+    for texpr, tmag in NAMED_TARGETS.get(name, []):
+        out.append((texpr, tmag))
     return out
 
 
-def check(run):
-    tier = run.tier
+def cell_stmts(cexpr, texpr, ratio, types, slots):
+    """dump statements of one (constant, target) cell restricted to `types`"""
+    stm = ['using C = std::decay_t<decltype(%s)>; using Tg = %s;' % (cexpr, texpr)]
+    flags = ", ".join("C::template can_store_value_in<%s>(Tg{})" % t for t in types)
+    stm.append('{ const bool f[] = {%s}; std::string s = "["; for (int i = 0; i < %d; ++i) { if (i) s += ","; s += f[i] ? "1" : "0"; } vf_kv("can", s + "]"); }' % (flags, len(types)))
+    vals = []
+    for t in types:
+        verdict, ev = c11.expected_rep(t, ratio)
+        if verdict:
+            exprs = ["C{}.template as<%s>(Tg{}).in(Tg{})" % t, "C{}.template in<%s>(Tg{})" % t, "au::Quantity<Tg, %s>(C{}).in(Tg{})" % t,
+                     "[] { au::Quantity<Tg, %s> q = C{}; return q.in(Tg{}); }()" % t, "c16::takes<Tg, %s>(C{})" % t]
+            vals.append('std::string("\\"%s\\":[") + %s + "]"' % (t, ' + "," + '.join('"\\"" + c16::fmt<%s>(%s) + "\\""' % (t, e) for e in exprs)))
+    if vals:
+        stm.append('vf_kv("vals", std::string("{") + %s + "}");' % ' + "," + '.join(vals))
+    if slots:
+        # the same target spelled through other unit-slot families: can_store_value_in / in<T> / as<T> must not depend on the spelling
+        sl = [("maker", "au::QuantityMaker<Tg>{}"), ("symbol", "au::SymbolFor<Tg>{}"), ("constant", "au::Constant<Tg>{}")]
+        parts = []
+        for sn, se in sl:
+            f = ", ".join("C::template can_store_value_in<%s>(%s)" % (t, se) for t in types)
+            parts.append('[] { const bool f[] = {%s}; std::string s = "\\"%s\\":["; for (int i = 0; i < %d; ++i) { if (i) s += ","; s += f[i] ? "1" : "0"; } return s + "]"; }()' % (f, sn, len(types)))
+        stm.append('vf_kv("slot_can", std::string("{") + %s + "}");' % ' + "," + '.join(parts))
+        sv = []
+        for t in types:
+            verdict, ev = c11.expected_rep(t, ratio)
+            if verdict:
+                exprs = ["C{}.template as<%s>(%s).in(Tg{})" % (t, se) for sn, se in sl] + ["C{}.template in<%s>(%s)" % (t, se) for sn, se in sl]
+                sv.append('std::string("\\"%s\\":[") + %s + "]"' % (t, ' + "," + '.join('"\\"" + c16::fmt<%s>(%s) + "\\""' % (t, e) for e in exprs)))
+        if sv:
+            stm.append('vf_kv("slot_vals", std::string("{") + %s + "}");' % ' + "," + '.join(sv))
+    return ["{"] + stm + ["}"]
+
+
+def form_code(form, t):
+    return {"as": "(void)C{}.template as<%s>(Tg{});" % t, "in": "(void)C{}.template in<%s>(Tg{});" % t,
+            "implicit": "au::Quantity<Tg, %s> q = C{}; (void)q;" % t,
+            "in-positive": "static_assert(C{}.template in<%s>(Tg{}) > 0, \"\");" % t}[form]
+
+
+# ------------------------------------------------------------------------------------------------
+# composition rows
+
+
+def composition_rows(tier):
+    """-> (value rows, wrapper rows, optional rows)."""
+    hbar_m = model.vdiv(model.vmul(model.mag_int(662607015), ten(-39)), model.vmul(model.mag_int(2), model.MAG_PI))
+    consts = [("c", "au::SPEED_OF_LIGHT", model.d(L=1, T=-1), model.mag_int(299792458)),
+              ("hbar", "au::REDUCED_PLANCK_CONSTANT", model.vmul(J_DIM, model.d(T=1)), hbar_m),
+              ("r57", "au::make_constant(au::Meters{} / au::Seconds{} * au::mag<5>() / au::mag<7>())", model.d(L=1, T=-1), model.mag_ratio(5, 7))]
+    nums = [("3.5f", "float", True), ("7", "int", False), ("uint8_t{200}", "uint8_t", False), ("int8_t{-3}", "int8_t", False),
+            ("int16_t{-32768}", "int16_t", False), ("std::numeric_limits<uint64_t>::max()", "uint64_t", False), ("-0.0", "double", True),
+            ("std::numeric_limits<double>::denorm_min()", "double", True), ("std::numeric_limits<float>::infinity()", "float", True),
+            ("2.5L", "long double", True), ("7.25", "double", True)]
+    sec, met = model.d(T=1), model.d(L=1)
+    qs = [("au::seconds(7)", "int", False, sec, "7"), ("au::seconds(7.25)", "double", True, sec, "7.25"), ("au::meters(7L)", "long", False, met, "7L"),
+          ("au::seconds(8.0f)", "float", True, sec, "8.0f"), ("au::seconds(int8_t{-3})", "int8_t", False, sec, "int8_t{-3}"),
+          ("au::meters(-0.0)", "double", True, met, "-0.0"), ("au::seconds(std::numeric_limits<uint64_t>::max())", "uint64_t", False, sec, "std::numeric_limits<uint64_t>::max()"),
+          ("au::milli(au::seconds)(uint16_t{65535})", "uint16_t", False, sec, "uint16_t{65535}"), ("au::seconds(2.5L)", "long double", True, sec, "2.5L")]
+    qmag = {"au::milli(au::seconds)(uint16_t{65535})": model.mag_ratio(1, 1000)}
+    rows = []
+    for ci, (cn, ce, cd, cm) in enumerate(consts):
+        inv_d, inv_m = model.vinv(cd), model.vinv(cm)
+        for ni, (x, rep, isf) in enumerate(nums):
+            if tier == "quick" and ci > 0 and ni % 3 != ci % 3:
+                continue
+            rows.append(("%s*%s" % (cn, x), "%s * %s" % (ce, x), rep, x, False, cd, cm))
+            rows.append(("%s*%s" % (x, cn), "%s * %s" % (x, ce), rep, x, False, cd, cm))
+            rows.append(("%s/%s" % (x, cn), "%s / %s" % (x, ce), rep, x, False, inv_d, inv_m))
+            if isf:
+                rows.append(("%s/%s" % (cn, x), "%s / %s" % (ce, x), rep, "(%s{1} / %s)" % ("T_", x), True, cd, cm))
+        for qi, (q, rep, isf, qd, raw) in enumerate(qs):
+            if tier == "quick" and ci > 0 and qi % 3 != ci % 3:
+                continue
+            qm = qmag.get(q, {})
+            rows.append(("%s*%s" % (cn, q), "%s * %s" % (ce, q), rep, raw, False, model.vmul(cd, qd), model.vmul(cm, qm)))
+            rows.append(("%s*%s" % (q, cn), "%s * %s" % (q, ce), rep, raw, False, model.vmul(cd, qd), model.vmul(cm, qm)))
+            rows.append(("%s/%s" % (q, cn), "%s / %s" % (q, ce), rep, raw, False, model.vdiv(qd, cd), model.vdiv(qm, cm)))
+            if isf:
+                rows.append(("%s/%s" % (cn, q), "%s / %s" % (ce, q), rep, "(T_{1} / %s)" % raw, True, model.vdiv(cd, qd), model.vdiv(cm, qm)))
+    C0, cd, cm = consts[0][1:]
+    wr = []
+    for cn, ce, cd_, cm_ in consts:
+        three = model.mag_int(3)
+        wr += [("%s*mag" % cn, "%s * au::mag<3>()" % ce, "Constant", cd_, model.vmul(cm_, three)), ("mag*%s" % cn, "au::mag<3>() * %s" % ce, "Constant", cd_, model.vmul(cm_, three)),
+               ("%s/mag" % cn, "%s / au::mag<3>()" % ce, "Constant", cd_, model.vdiv(cm_, three)), ("mag/%s" % cn, "au::mag<3>() / %s" % ce, "Constant", model.vinv(cd_), model.vdiv(three, cm_)),
+               ("%s*pi" % cn, "%s * au::Magnitude<au::Pi>{}" % ce, "Constant", cd_, model.vmul(cm_, model.MAG_PI)),
+               ("%s*maker" % cn, "%s * au::seconds" % ce, "QuantityMaker", model.vmul(cd_, model.d(T=1)), cm_), ("maker*%s" % cn, "au::seconds * %s" % ce, "QuantityMaker", model.vmul(cd_, model.d(T=1)), cm_),
+               ("%s/maker" % cn, "%s / au::meters" % ce, "QuantityMaker", model.vdiv(cd_, model.d(L=1)), cm_), ("maker/%s" % cn, "au::meters / %s" % ce, "QuantityMaker", model.vdiv(model.d(L=1), cd_), model.vinv(cm_)),
+               ("%s*kilomaker" % cn, "%s * au::kilo(au::meters)" % ce, "QuantityMaker", model.vmul(cd_, model.d(L=1)), model.vmul(cm_, model.mag_int(1000))),
+               ("%s*singular" % cn, "%s * au::second" % ce, "SingularNameFor", model.vmul(cd_, model.d(T=1)), cm_), ("singular*%s" % cn, "au::second * %s" % ce, "SingularNameFor", model.vmul(cd_, model.d(T=1)), cm_),
+               ("%s/singular" % cn, "%s / au::meter" % ce, "SingularNameFor", model.vdiv(cd_, model.d(L=1)), cm_), ("singular/%s" % cn, "au::meter / %s" % ce, "SingularNameFor", model.vdiv(model.d(L=1), cd_), model.vinv(cm_)),
+               ("%s*C" % cn, "%s * au::PLANCK_CONSTANT" % ce, "Constant", model.vmul(cd_, model.vmul(J_DIM, model.d(T=1))), model.vmul(cm_, lib_constants()[6][2])),
+               ("C*%s" % cn, "au::PLANCK_CONSTANT * %s" % ce, "Constant", model.vmul(cd_, model.vmul(J_DIM, model.d(T=1))), model.vmul(cm_, lib_constants()[6][2])),
+               ("%s/self" % cn, "%s / %s" % (ce, ce), "Constant", {}, {}),
+               ("%s/G" % cn, "%s / au::STANDARD_GRAVITY" % ce, "Constant", model.vdiv(cd_, model.d(L=1, T=-2)), model.vdiv(cm_, model.mag_ratio(980665, 100000))),
+               ("G/%s" % cn, "au::STANDARD_GRAVITY / %s" % ce, "Constant", model.vdiv(model.d(L=1, T=-2), cd_), model.vdiv(model.mag_ratio(980665, 100000), cm_))]
+    mps_d = model.d(L=1, T=-1)
+    wr += [("make_constant(unit)", "au::make_constant(au::Meters{} / au::Seconds{})", "Constant", mps_d, {}),
+           ("make_constant(maker)", "au::make_constant(au::meters / au::second)", "Constant", mps_d, {}),
+           ("make_constant(kilomaker)", "au::make_constant(au::kilo(au::meters) / au::hour)", "Constant", mps_d, model.mag_ratio(1000, 3600)),
+           ("make_constant(symbol)", "au::make_constant(au::symbols::m / au::symbols::s)", "Constant", mps_d, {}),
+           ("make_constant(constant)", "au::make_constant(au::SPEED_OF_LIGHT)", "Constant", mps_d, model.mag_int(299792458))]
+    # operand families that this library version does not document for Constant: observed, judged only if offered
+    CT = "std::decay_t<decltype(au::SPEED_OF_LIGHT)>"
+    opt = [("C*unit", "c16::Mul<%s, au::Meters>" % CT, model.vmul(cd, model.d(L=1)), cm), ("unit*C", "c16::Mul<au::Meters, %s>" % CT, model.vmul(cd, model.d(L=1)), cm),
+           ("C/unit", "c16::Div<%s, au::Seconds>" % CT, model.vdiv(cd, model.d(T=1)), cm), ("unit/C", "c16::Div<au::Seconds, %s>" % CT, model.vdiv(model.d(T=1), cd), model.vinv(cm)),
+           ("C*symbol", "c16::Mul<%s, au::SymbolFor<au::Meters>>" % CT, model.vmul(cd, model.d(L=1)), cm), ("symbol*C", "c16::Mul<au::SymbolFor<au::Meters>, %s>" % CT, model.vmul(cd, model.d(L=1)), cm),
+           ("C/symbol", "c16::Div<%s, au::SymbolFor<au::Seconds>>" % CT, model.vdiv(cd, model.d(T=1)), cm), ("symbol/C", "c16::Div<au::SymbolFor<au::Seconds>, %s>" % CT, model.vdiv(model.d(T=1), cd), model.vinv(cm))]
+    return rows, wr, opt
+
+
+def build(tier):
+    """the record / probe set of one tier's grid"""
     consts = []
     for name, dim, mag in lib_constants():
         consts.append((name, "au::" + name, None, dim, mag, True))
@@ -101,85 +285,121 @@ def check(run):
     recs, meta = [], {}
     rid = 0
     probes = []
-    for (name, cexpr, uexpr, dim, mag, is_lib) in consts:
+    ncell = 0
+    for ci, (name, cexpr, uexpr, dim, mag, is_lib) in enumerate(consts):
         # the constant's own unit against the model (SI definition for library constants)
-        recs.append((rid, ['vf_kv("u", "{" + vf::unit_json<au::AssociatedUnitT<std::decay_t<decltype(%s)>>>() + "}");' % cexpr]))
-        meta[rid] = {"kind": "unit", "name": name, "dim": dim, "mag": mag}
+        recs.append((rid, ['vf_kv("u", c16::kind_unit<std::decay_t<decltype(%s)>>());' % cexpr]))
+        meta[rid] = {"kind": "unit", "name": name, "dim": dim, "mag": mag, "wkind": "Constant"}
         rid += 1
-        for (texpr, tmag) in targets_for(dim, mag, tier):
+        for ti, (texpr, tmag) in enumerate(targets_for(name, ci, dim, mag, tier)):
             ratio = model.vdiv(mag, tmag)
-            stm = ['using C = std::decay_t<decltype(%s)>; using Tg = %s;' % (cexpr, texpr)]
-            flags = ", ".join("C::template can_store_value_in<%s>(Tg{})" % t for t in R11)
-            stm.append('{ const bool f[] = {%s}; std::string s = "["; for (int i = 0; i < %d; ++i) { if (i) s += ","; s += f[i] ? "1" : "0"; } vf_kv("can", s + "]"); }' % (flags, len(R11)))
-            vals = []
-            for t in R11:
+            slots = name in SLOT_CONSTS and (tier != "quick" or ti % 3 == 0)
+            recs.append((rid, cell_stmts(cexpr, texpr, ratio, R11, slots)))
+            meta[rid] = {"kind": "cell", "name": name, "ratio": ratio, "target": texpr, "cexpr": cexpr, "slots": slots}
+            pre = "using C = std::decay_t<decltype(%s)>; using Tg = %s; " % (cexpr, texpr)
+            for k, t in enumerate(R11):
                 verdict, ev = c11.expected_rep(t, ratio)
-                if verdict:
-                    vals.append('"\\"%s\\":[\\"" + c16::fmt<%s>(C{}.template as<%s>(Tg{}).in(Tg{})) + "\\",\\"" + c16::fmt<%s>(C{}.template in<%s>(Tg{})) + "\\",\\"" '
-                                '+ c16::fmt<%s>(au::Quantity<Tg, %s>(C{}).in(Tg{})) + "\\"]"' % (t, t, t, t, t, t, t))
-                    probes.append(core.Probe((rid, t, "twin"), "using C = std::decay_t<decltype(%s)>; using Tg = %s; au::Quantity<Tg, %s> q = C{}; (void)q;" % (cexpr, texpr, t),
-                                             "accept", {"name": name, "t": t, "ratio": ratio}))
-                elif verdict is False:
-                    for form, code in (("as", "(void)C{}.template as<%s>(Tg{});" % t), ("in", "(void)C{}.template in<%s>(Tg{});" % t),
-                                       ("implicit", "au::Quantity<Tg, %s> q = C{}; (void)q;" % t)):
-                        probes.append(core.Probe((rid, t, form), "using C = std::decay_t<decltype(%s)>; using Tg = %s; %s" % (cexpr, texpr, code),
-                                                 "reject", {"name": name, "t": t, "ratio": ratio}))
-            if vals:
-                stm.append('vf_kv("vals", std::string("{") + %s + "}");' % ' + "," + '.join(vals))
-            recs.append((rid, ["{"] + stm + ["}"]))
-            meta[rid] = {"kind": "cell", "name": name, "ratio": ratio, "target": texpr}
+                if verdict is False:
+                    for fi, form in enumerate(FORMS):
+                        # quick: one spelling per (cell, type), rotating, so every non-representable (cell, type) is probed
+                        if tier == "quick" and (ncell + k) % 3 != fi:
+                            continue
+                        probes.append(core.Probe((rid, t, form), pre + form_code(form, t), "reject", {"name": name, "t": t, "ratio": ratio}))
+                elif verdict and tier != "quick":
+                    # (the dump already copy-initialises every representable (cell, type); thorough repeats it as an accept twin)
+                    probes.append(core.Probe((rid, t, "twin"), pre + form_code("implicit", t), "accept", {"name": name, "t": t, "ratio": ratio}))
+            ncell += 1
             rid += 1
-    # composition: stored number untouched, unit = model
-    comp = []
-    C0, cd, cm = "au::SPEED_OF_LIGHT", model.d(L=1, T=-1), model.mag_int(299792458)
-    items = [
-        ("C*float", "%s * 3.5f" % C0, "float", "3.5f", cd, cm), ("float*C", "3.5f * %s" % C0, "float", "3.5f", cd, cm),
-        ("C/float", "%s / 3.5f" % C0, "float", "(1.0f / 3.5f)", cd, cm), ("float/C", "3.5f / %s" % C0, "float", "3.5f", model.vinv(cd), model.vinv(cm)),
-        ("C*int", "%s * 7" % C0, "int", "7", cd, cm), ("int/C", "7 / %s" % C0, "int", "7", model.vinv(cd), model.vinv(cm)),
-        ("C*u8", "%s * uint8_t{200}" % C0, "uint8_t", "uint8_t{200}", cd, cm),
-        ("C*q", "%s * au::seconds(7)" % C0, "int", "7", model.vmul(cd, model.d(T=1)), cm),
-        ("q*C", "au::seconds(7.25) * %s" % C0, "double", "7.25", model.vmul(cd, model.d(T=1)), cm),
-        ("q/C", "au::meters(7L) / %s" % C0, "long", "7L", model.vdiv(model.d(L=1), cd), model.vinv(cm)),
-        ("C/q", "%s / au::seconds(8.0f)" % C0, "float", "(1.0f / 8.0f)", model.vdiv(cd, model.d(T=1)), cm),
-        ("C/q-int", "%s / au::seconds(int8_t{-3})" % C0, None, None, None, None),
-    ]
-    for (nm, expr, rep, val, dim, mag) in items:
-        if rep is None:
-            continue
-        stm = ['auto r = %s; using Q = decltype(r);' % expr,
-               'vf_b("rep", std::is_same<typename Q::Rep, %s>::value);' % rep,
-               'const %s want = %s; vf_b("bits", vf::same_bits(r.in(Q::unit), want));' % (rep, val),
-               'vf_kv("u", "{" + vf::unit_json<typename Q::Unit>() + "}");']
+    # composition: stored number untouched, unit = model, result of the right wrapper family
+    rows, wrappers, optional = composition_rows(tier)
+    for (nm, expr, rep, val, recip, dim, mag) in rows:
+        stm = ['auto r = %s; using Q = std::decay_t<decltype(r)>; using T_ = %s;' % (expr, rep),
+               'vf_b("rep", std::is_same<typename Q::Rep, T_>::value);',
+               'const T_ want = %s; const T_ got = r.in(Q::unit); vf_b("bits", c16::same_value_bits(got, want));' % val,
+               'vf_b("near", %s);' % ("c16::near1(got, want)" if recip else "false"),
+               'vf_kv("u", c16::kind_unit<Q>());']
         recs.append((rid, ["{"] + stm + ["}"]))
-        meta[rid] = {"kind": "comp", "name": nm, "dim": dim, "mag": mag}
+        meta[rid] = {"kind": "comp", "name": nm, "dim": dim, "mag": mag, "wkind": "Quantity", "recip": recip}
         rid += 1
-    wrappers = [
-        ("C*mag", "%s * au::mag<3>()" % C0, cd, model.vmul(cm, model.mag_int(3))), ("mag*C", "au::mag<3>() * %s" % C0, cd, model.vmul(cm, model.mag_int(3))),
-        ("C/mag", "%s / au::mag<3>()" % C0, cd, model.vdiv(cm, model.mag_int(3))), ("mag/C", "au::mag<3>() / %s" % C0, model.vinv(cd), model.vdiv(model.mag_int(3), cm)),
-        ("C*maker", "%s * au::seconds" % C0, model.d(L=1), cm), ("maker*C", "au::seconds * %s" % C0, model.d(L=1), cm),
-        ("C/maker", "%s / au::meters" % C0, model.d(T=-1), cm), ("maker/C", "au::meters / %s" % C0, model.d(T=1), model.vinv(cm)),
-        ("C*singular", "%s * au::second" % C0, model.d(L=1), cm), ("C/singular", "%s / au::meter" % C0, model.d(T=-1), cm),
-        ("C*C", "%s * au::PLANCK_CONSTANT" % C0, model.vmul(cd, model.vmul(J_DIM, model.d(T=1))), model.vmul(cm, lib_constants()[6][2])),
-        ("C/C", "%s / %s" % (C0, C0), {}, {}), ("C/G", "%s / au::STANDARD_GRAVITY" % C0, model.d(T=1), model.vdiv(cm, model.mag_ratio(980665, 100000))),
-    ]
-    for (nm, expr, dim, mag) in wrappers:
-        recs.append((rid, ['vf_kv("u", "{" + vf::unit_json<au::AssociatedUnitT<std::decay_t<decltype(%s)>>>() + "}");' % expr]))
-        meta[rid] = {"kind": "unit", "name": nm, "dim": dim, "mag": mag}
+    for (nm, expr, wkind, dim, mag) in wrappers:
+        recs.append((rid, ['vf_kv("u", c16::kind_unit<std::decay_t<decltype(%s)>>());' % expr]))
+        meta[rid] = {"kind": "unit", "name": nm, "dim": dim, "mag": mag, "wkind": wkind}
         rid += 1
-    if tier == "quick":
-        probes = [p for i, p in enumerate(probes) if i % 4 == 0]
-    cfgs = core.CORNERS if tier == "quick" else core.CFG6
+    for (nm, expr, dim, mag) in optional:
+        recs.append((rid, ['vf_kv("u", %s::get());' % expr]))
+        meta[rid] = {"kind": "optional", "name": nm, "dim": dim, "mag": mag}
+        rid += 1
+    return {"tier": tier, "consts": consts, "recs": recs, "meta": meta, "probes": probes, "rows": rows, "wrappers": wrappers}
+
+
+def check(run):
+    tier = run.tier
+    full = build(tier)
+    # thorough: the complete grid on the two corner configurations, the quick-tier grid on the four middle ones
+    core_grid = full if tier == "quick" else build("quick")
+    plan = [(cfg, full if cfg in core.CORNERS else core_grid) for cfg in (core.CORNERS if tier == "quick" else
+            list(core.CORNERS) + [c for c in core.CFG6 if c not in core.CORNERS])]
+    consts, rows, wrappers = full["consts"], full["rows"], full["wrappers"]
     evals = 0
     dont_care = 0
     both = {}
-    for cfg in cfgs:
-        res, failed = psx.run_dump(cfg, recs, os.path.join(run.wd, cfg.name), "c16", PREAMBLE, flags=cflags(cfg),
-                                   chunk=max(6, len(recs) // (core.NCPU * 2) + 1))
-        for r, diag in failed.items():
+    cnt = {"dont_care_cells_consistent": 0, "dont_care_probes": 0, "reciprocal_not_bit_identical_but_within_1ulp": 0,
+           "unit_or_symbol_operand_forms_not_offered": 0, "unit_or_symbol_operand_forms_offered": 0, "slot_spelling_facts": 0}
+    nprobes = nprograms = 0
+    skipped, cost = [], {}
+    for cfg, g in plan:
+        tier, recs, meta, probes = g["tier"], g["recs"], g["meta"], g["probes"]
+        t_start = run.elapsed()
+        if run.time_left() < 1.3 * cost.get(id(g), 0) + 30:
+            skipped.append(str(cfg))
+            continue
+        nprograms += len(recs)
+        # canaries first: when most of a dozen cells spread over the constants no longer compile, the tree has lost the
+        # conversions wholesale; report those and do not bisect the whole grid record by record
+        cells = [rc for rc in recs if meta[rc[0]]["kind"] == "cell"]
+        canary = cells[:: max(1, len(cells) // 12)][:12]
+        res, failed = psx.run_dump(cfg, canary, os.path.join(run.wd, cfg.name + "_canary"), "c16c", PREAMBLE, flags=cflags(cfg), chunk=1)
+        mass = len(failed) * 2 >= len(canary)
+        if mass:
+            cnt.setdefault("grid_skipped_after_mass_failure", []).append(str(cfg))
+        else:
+            res, failed = psx.run_dump(cfg, recs, os.path.join(run.wd, cfg.name), "c16", PREAMBLE, flags=cflags(cfg),
+                                       chunk=max(6, min(40, len(recs) // (core.NCPU * 2) + 1)))
+        # a cell mixes all 11 types: attribute a compile failure to the (cell, type) that causes it
+        split, smeta = [], {}
+        nsplit = 0
+        for r, diag in sorted(failed.items()):
             m = meta[r]
-            run.violation("C16:does-not-compile:%s:%s" % (m["name"], m.get("target", "")),
-                          "%s: %s (%s) does not compile although every value form used is predicted representable: %s" % (cfg, m["name"], m.get("target", m["kind"]), diag),
-                          run.write_replay("C16:does-not-compile:%s:%s" % (m["name"], m.get("target", "")), {"kind": "program", "config": str(cfg), "stmts": recs[r][1]}))
+            if m["kind"] != "cell":
+                key = "C16:does-not-compile:%s:%s" % (m["name"], m.get("target", ""))
+                run.violation(key, "%s: %s (%s) does not compile: %s" % (cfg, m["name"], m["kind"], diag),
+                              run.write_replay(key, {"kind": "program", "config": str(cfg), "stmts": recs[r][1], "must_compile": True}))
+                continue
+            nsplit += 1
+            if nsplit > 8:
+                continue            # mass failure: only the first few cells are attributed per type, the rest are reported as whole cells
+            for t in R11:
+                sid = len(split)
+                split.append((sid, cell_stmts(m["cexpr"], m["target"], m["ratio"], [t], m["slots"])))
+                smeta[sid] = (r, t, diag)
+        blamed = set()
+        if split:
+            sres, sfailed = psx.run_dump(cfg, split, os.path.join(run.wd, cfg.name + "_split"), "c16s", PREAMBLE, flags=cflags(cfg), chunk=8)
+            for sid, diag in sfailed.items():
+                r, t, _ = smeta[sid]
+                m = meta[r]
+                blamed.add(r)
+                key = "C16:does-not-compile:%s:%s:%s" % (m["name"], t, model.mag_key(m["ratio"]))
+                run.violation(key, "%s: %s -> %s: can_store_value_in<%s> / as / in / implicit conversion do not compile although the exact ratio ~2^%.1f is representable: %s" % (
+                    cfg, m["name"], m["target"], t, c11.approx_log2(m["ratio"]), diag),
+                    run.write_replay(key, {"kind": "program", "config": str(cfg), "stmts": split[sid][1], "must_compile": True}))
+        for r, diag in sorted(failed.items()):
+            m = meta[r]
+            if m["kind"] == "cell" and r not in blamed:
+                key = "C16:does-not-compile:%s:%s" % (m["name"], m["target"])
+                run.violation(key, "%s: %s -> %s does not compile (not attributed to a single type): %s" % (cfg, m["name"], m["target"], diag),
+                              run.write_replay(key, {"kind": "program", "config": str(cfg), "stmts": recs[r][1], "must_compile": True}))
+        dc_probes = []
         for r, o in res.items():
             m = meta[r]
 
@@ -187,27 +407,54 @@ def check(run):
                 key = "C16:%s:%s:%s:%s" % (kind, m["name"], t, model.mag_key(m.get("ratio", {})))
                 run.violation(key, "%s: %s" % (cfg, what), run.write_replay(key, {"kind": "program", "config": str(cfg), "stmts": recs[r][1], "observed": o}))
             evals += 1
-            if m["kind"] in ("unit", "comp"):
+            if m["kind"] == "optional":
+                if o["u"] is None:
+                    cnt["unit_or_symbol_operand_forms_not_offered"] += 1
+                    continue
+                cnt["unit_or_symbol_operand_forms_offered"] += 1
+            if m["kind"] in ("unit", "comp", "optional"):
                 gd, gm = model.dim_key(model.dim_from_readout(o["u"]["dim"])), model.mag_key(model.mag_from_readout(o["u"]["mag"]))
                 if gd != model.dim_key(m["dim"]) or gm != model.mag_key(m["mag"]):
                     viol("unit", "%s has unit dim=%s mag=%s; expected dim=%s mag=%s" % (m["name"], gd, gm, model.dim_key(m["dim"]), model.mag_key(m["mag"])))
-                if m["kind"] == "comp" and not (o["rep"] and o["bits"]):
-                    viol("stored-number", "%s changed the stored number or its type: %s" % (m["name"], o))
+                if "wkind" in m and o["u"]["kind"] != m["wkind"]:
+                    viol("wrapper-kind", "%s yields a %s, expected a %s" % (m["name"], o["u"]["kind"], m["wkind"]))
+                if m["kind"] == "comp":
+                    if not o["rep"] or not (o["bits"] or o["near"]):
+                        viol("stored-number", "%s changed the stored number or its type: %s" % (m["name"], o))
+                    elif not o["bits"]:
+                        cnt["reciprocal_not_bit_identical_but_within_1ulp"] += 1
                 continue
-            for t, can in zip(R11, o["can"]):
+            for k, (t, can) in enumerate(zip(R11, o["can"])):
                 evals += 1
                 can = bool(can)
                 verdict, ev = c11.expected_rep(t, m["ratio"])
                 both.setdefault(t, set()).add(can)
+                if m["slots"]:
+                    for sn in ("maker", "symbol", "constant"):
+                        cnt["slot_spelling_facts"] += 1
+                        if bool(o["slot_can"][sn][k]) != can:
+                            viol("slot-can", "%s: can_store_value_in<%s>(%s spelled as a %s) is %s but %s for the bare unit" % (m["name"], t, m["target"], sn, not can, can), t)
                 if verdict is None:
                     dont_care += 1
+                    # either answer is fine, but all four must agree ("available exactly when")
+                    pre = "using C = std::decay_t<decltype(%s)>; using Tg = %s; " % (m["cexpr"], m["target"])
+                    forms = ("as", "in-positive" if can and t in F3 else "in", "implicit")
+                    for fi, form in enumerate(forms):
+                        if tier == "quick" and (r + k) % 3 != fi:
+                            continue          # quick: one rotating spelling per don't-care (cell, type)
+                        dc_probes.append(core.Probe((r, t, form), pre + form_code(form, t), "accept" if can else "reject",
+                                                    {"name": m["name"], "t": t, "ratio": m["ratio"], "dc": True}))
                     continue
                 if can != verdict:
                     viol("can_store_value_in", "%s: can_store_value_in<%s>(%s) is %s but the exact ratio ~2^%.1f is %s" % (
                         m["name"], t, m["target"], can, c11.approx_log2(m["ratio"]), "representable" if verdict else "not representable"), t)
                     continue
                 if verdict and t in o.get("vals", {}):
-                    for form, val in zip(("as", "in", "implicit"), o["vals"][t]):
+                    allv = list(zip(VAL_FORMS, o["vals"][t]))
+                    if m["slots"] and t in o.get("slot_vals", {}):
+                        allv += list(zip(["as(maker)", "as(symbol)", "as(constant)", "in(maker)", "in(symbol)", "in(constant)"], o["slot_vals"][t]))
+                    for form, val in allv:
+                        evals += 1
                         if t in I8:
                             if ev is not None and int(val) != ev:
                                 viol("value", "%s .%s<%s>(%s) = %s, exact %s" % (m["name"], form, t, m["target"], val, ev), t)
@@ -216,25 +463,56 @@ def check(run):
                             if got is None or got <= 0 or (ev is not None and abs(got - ev) > 4 * c11.ulp(t, ev)):
                                 nulp = float(abs(got - ev) / c11.ulp(t, ev)) if (got is not None and ev is not None) else -1
                                 viol("value-off-by-le64ulp" if 0 <= nulp <= 64 else "value", "%s .%s<%s>(%s) = %s differs from the exact ratio by %.3g ulp" % (m["name"], form, t, m["target"], val, nulp), t)
-        pres, _ = core.run_probes(cfg, probes, os.path.join(run.wd, "pr_" + cfg.name), "c16p", PREAMBLE, flags=cflags(cfg))
-        for p in probes:
+        cnt["dont_care_probes"] += len(dc_probes)
+        pres = {}
+        if mass:
+            probes = []
+        for part, tag in ((probes, "c16p"), ([p for p in dc_probes if p.expect == "accept"], "c16da"), ([p for p in dc_probes if p.expect == "reject"], "c16dr")):
+            if part:
+                pres.update(core.run_probes(cfg, part, os.path.join(run.wd, tag + "_" + cfg.name), tag, PREAMBLE, flags=cflags(cfg))[0])
+        nprobes += len(probes) + len(dc_probes)
+        for p in probes + dc_probes:
             v, diag = pres[p.pid]
             evals += 1
             if v != p.expect:
                 key = "C16:%s-%s:%s:%s:%s" % (p.pid[2], v, p.meta["name"], p.meta["t"], model.mag_key(p.meta["ratio"]))
-                run.violation(key, "%s: `%s` is %sed; exact ratio is %s" % (cfg, p.code, v, "representable" if p.expect == "accept" else "not representable"),
-                              run.write_replay(key, {"kind": "program", "config": str(cfg), "code": p.code, "expected": p.expect, "observed": v}))
+                if p.meta.get("dc"):
+                    what = "%s: `%s` is %sed although can_store_value_in<%s> for the same constant and unit is %s (exact ratio ~2^%.1f, in the denormal / near-max band where either answer is allowed but all four must agree): %s" % (
+                        cfg, p.code, v, p.meta["t"], "true" if p.expect == "accept" else "false", c11.approx_log2(p.meta["ratio"]), diag[:160])
+                else:
+                    what = "%s: `%s` is %sed; exact ratio is %s" % (cfg, p.code, v, "representable" if p.expect == "accept" else "not representable")
+                run.violation(key, what, run.write_replay(key, {"kind": "program", "config": str(cfg), "code": p.code, "expected": p.expect, "observed": v}))
+            elif p.meta.get("dc"):
+                cnt["dont_care_cells_consistent"] += 1
+        cost[id(g)] = max(cost.get(id(g), 0), run.elapsed() - t_start)
+    tier, meta = run.tier, full["meta"]
+    cfgs = [c for c, g in plan if str(c) not in skipped]
+    if skipped:
+        cnt["configs_skipped_for_deadline"] = skipped
     run.cov.update({
-        "evaluations": evals, "programs": (len(recs) + len(probes)) * len(cfgs), "constants": len(consts), "cells": sum(1 for m in meta.values() if m["kind"] == "cell"),
-        "probes": len(probes), "dont_care": dont_care, "distinct_nontrivial": sum(1 for s in both.values() if len(s) == 2),
-        "rule": "9 library constants (units checked against their SI definitions) + 12 generated constants (integer, rational, 2^64-59, pi, sqrt2, compound, type-limit values) "
-                "x same-dimension target units whose ratio straddles each type's maximum / minimum x 11 arithmetic types: can_store_value_in read out, as/in/implicit values where "
-                "representable, accept/reject probes otherwise; composition with numbers, quantities, magnitudes, makers, singular names and constants must leave the stored number "
-                "bit-identical. distinct_nontrivial = number of types with both storable and non-storable cells.",
-        "configs": [str(c) for c in cfgs], "exhaustive": True, "exhaustive_note": "the stated finite grid is enumerated completely",
+        "evaluations": evals, "programs": nprograms + nprobes, "constants": len(consts), "cells": sum(1 for m in meta.values() if m["kind"] == "cell"),
+        "probes": nprobes, "dont_care": dont_care, "distinct_nontrivial": sum(1 for s in both.values() if len(s) == 2),
+        "composition_value_rows": len(rows), "composition_wrapper_rows": len(wrappers),
+        "rule": "9 library constants (units checked against their SI definitions) + 14 generated constants (integer, rational, 2^64-59, pi, sqrt2, 2^(3/2), a rational-power "
+                "dimension, compound, type-limit values) x same-dimension target units (SI-atom products scaled so that the exact ratio is 2^k-1 / 2^k for k in 7,8,15,16,31,32,63,64 "
+                "and 10^e on both sides of FLT/DBL/LDBL max, min normal and half the smallest denormal; a few named, prefixed and compound library units) x 11 arithmetic types: "
+                "can_store_value_in read out; as<T>, in<T>, direct-init, copy-init and argument-position implicit conversion values where representable; accept/reject probes of "
+                "as / in / implicit otherwise (quick: one rotating spelling per non-representable (cell, type); thorough: all three); in the don't-care band the three forms are probed "
+                "against the library's own can_store_value_in answer (all four must agree); the target is also spelled as QuantityMaker / SymbolFor / Constant for 3 constants. "
+                "Composition: 3 constants (integer, irrational, rational magnitude) x an enumerated alphabet of numbers (float, int, narrow signed/unsigned, uint64 max, -0.0, "
+                "denormal, inf, long double) and quantities x {C*x, x*C, x/C, C/x}: rep identical, stored number bit-identical (C/x: bit-identical to T{1}/x, or counted when within "
+                "1 ulp), unit = model, result of the expected wrapper family; magnitudes, makers, singular names, constants, make_constant(slot). "
+                "distinct_nontrivial = number of types with both storable and non-storable cells.",
+        "configs": [str(c) for c in cfgs], "exhaustive": not skipped and "grid_skipped_after_mass_failure" not in cnt,
+        "exhaustive_note": ("the stated finite grid is enumerated completely" + (" (thorough: complete grid on g++/c++14 and clang++/c++20, the quick-tier grid on the other four configurations)" if tier != "quick" else "")
+                            if not skipped else "configurations skipped to respect the deadline: %s" % skipped),
         "samples": [{"constant": m["name"], "target": m["target"]} for m in list(meta.values())[:: max(1, len(meta) // 6)] if m["kind"] == "cell"][:6],
     })
-    run.assumptions += ["representability oracle shared with C11 (same don't-care bands)"]
+    run.cov.update(cnt)
+    run.assumptions += ["representability oracle shared with C11 (same don't-care bands)",
+                        "Constant (x) bare unit type and Constant (x) SymbolFor are not documented operations of this library version (docs/reference/constant.md lists numbers, "
+                        "quantities, constants, makers, singular names, magnitudes): they are observed and judged (unit = model) only when offered, otherwise counted",
+                        "C / integer and C / integer-rep quantity are rejected by a documented static_assert and are not probed"]
 
 
 def replay(path):
@@ -252,7 +530,7 @@ def replay(path):
         return 0
     res, failed = psx.run_dump(cfg, [(0, r["stmts"])], wd, "rp", PREAMBLE, flags=cflags(cfg))
     print("observed now:", res.get(0), failed)
-    if failed or res.get(0) == r.get("observed"):
+    if failed or (not r.get("must_compile") and res.get(0) == r.get("observed")):
         print("VIOLATION property=C16 replay=%s" % path)
         return 1
     return 0
